@@ -158,6 +158,11 @@ func c1RegionCases(r *rng, thorough bool) []*c1case {
 			src := c1Wrap("type S struct {\n\tA, B int\n}\n\ntype H struct {\n\tF, G S\n}\n\n", fmt.Sprintf("\th := H{S{1, 2}, S{3, 4}}\n\t(h.F) = S{A: %d, B: %d}\n\tfmt.Println(h)\n", a, b))
 			add("paren-dst-lit", src, "", c1Pred{"{{1 2} {3 4}}\nend\n", "ok"})
 		}
+		// variadic-lit-nil: a function literal called without variadic arguments gets an empty, non-nil slice
+		{
+			src := c1Wrap("", "\tf := func(v ...int) bool { return v == nil }\n\tfmt.Println(f(), f(1))\n")
+			add("variadic-lit-nil", src, "true false\nend\n", c1Pred{"false false\nend\n", "ok"})
+		}
 		// paren-literal
 		{
 			src := c1Wrap("", "\tb := true\n\ts := \"hello\"\n\tfmt.Println(\"start\")\n\tif (s >= (\"q\")) || b {\n\t\tfmt.Println(\"then\")\n\t}\n")
